@@ -175,6 +175,8 @@ class Machine:
                 raise Undefined("unsafe index out of range")
             if i < len(buf):
                 b = buf[i]
+            elif self.unsafe_index:
+                raise Undefined("unsafe index beyond the stored length (only in-range unsafe indexing is in scope)")
             elif i == len(buf) and o.type == OST.STR and o.str_null:
                 b = 0
             else:
